@@ -295,6 +295,15 @@ def run(chk, F, tier):
                                 roots = {root_local(T, o) for o in ops if o.get("k") in ("copy", "move")}
                                 if consts and roots & walk_locals:
                                     exit_ok = True
+                            # the walking index is a `usize` (it indexes the Vec), so `index > 0`, `0 < index`, `index >= 1`, `1 <= index`
+                            # are the same test as `index != 0`
+                            if s_["k"] == "assign" and s_["rv"]["k"] == "binop" and s_["rv"]["op"] in ("Gt", "Lt", "Ge", "Le"):
+                                op_ = s_["rv"]["op"]
+                                va, cb = (s_["rv"]["a"], s_["rv"]["b"]) if op_ in ("Gt", "Ge") else (s_["rv"]["b"], s_["rv"]["a"])
+                                want = 0 if op_ in ("Gt", "Lt") else 1
+                                if va.get("k") in ("copy", "move") and cb.get("k") == "const" and cb.get("bits") is not None \
+                                        and int(cb["bits"], 16) == want and root_local(T, va) in walk_locals:
+                                    exit_ok = True
                     n_r4 += 1
                     if exit_ok:
                         chk.ok("index-map", "%s walk runs until the walking index is 0" % key, nontrivial=False)
